@@ -42,11 +42,12 @@ type Value struct {
 type SliceV struct{ S []Value }
 
 type MapV struct {
-	Keys []Value
-	Vals []Value
-	Live []bool
-	idx  map[string]int
-	n    int
+	Keys  []Value
+	Vals  []Value
+	Live  []bool
+	idx   map[string]int
+	n     int
+	fuzzy []int // positions of live keys without concrete identity (compared by formula on lookup)
 }
 
 type IfaceV struct {
@@ -97,7 +98,10 @@ type Seg struct {
 	Sym  []*smt.Term // symbolic bytes (W=8)
 	Atom *Atom       // opaque
 	Tag  string      // derivation tag for atoms ("str", "b58", "bytes")
+	Opq  *OTerm      // opaque constructor term (hex/base64 text of an opaque value, digest, ...)
 }
+
+func (s Seg) plain() bool { return s.Sym == nil && s.Atom == nil && s.Opq == nil }
 
 type BoundMethod struct {
 	Recv Value
@@ -280,7 +284,7 @@ func (v Value) ConcStr() (string, bool) {
 		}
 		var b strings.Builder
 		for _, sg := range s.Segs {
-			if sg.Sym != nil || sg.Atom != nil {
+			if !sg.plain() || sg.Sym != nil {
 				return "", false
 			}
 			b.WriteString(sg.S)
@@ -306,11 +310,11 @@ func ropeOf(v Value) *Rope {
 func normRope(r *Rope) Value {
 	var out []Seg
 	for _, s := range r.Segs {
-		if s.Sym == nil && s.Atom == nil {
+		if s.plain() {
 			if s.S == "" {
 				continue
 			}
-			if n := len(out); n > 0 && out[n-1].Sym == nil && out[n-1].Atom == nil {
+			if n := len(out); n > 0 && out[n-1].plain() {
 				out[n-1].S += s.S
 				continue
 			}
@@ -320,7 +324,7 @@ func normRope(r *Rope) Value {
 	if len(out) == 0 {
 		return mkStr("")
 	}
-	if len(out) == 1 && out[0].Sym == nil && out[0].Atom == nil {
+	if len(out) == 1 && out[0].plain() {
 		return mkStr(out[0].S)
 	}
 	return Value{K: KStr, R: &Rope{Segs: out}}
@@ -363,6 +367,12 @@ func keyOf(v Value) (string, bool) {
 			switch {
 			case sg.Atom != nil:
 				fmt.Fprintf(&b, "<%s#%d/%s>", sg.Atom.Fam, sg.Atom.ID, sg.Tag)
+			case sg.Opq != nil:
+				k, ok := otermKey(sg.Opq)
+				if !ok {
+					return "", false
+				}
+				b.WriteString("<" + k + ">")
 			case sg.Sym != nil:
 				return "", false
 			default:
